@@ -43,7 +43,9 @@ def history(draw):
       else:
         ops.append([k, inst, attr, draw(st.integers(-5, 5))])
   return {"nattr": nattr, "base": base, "ops": ops,
-          "falsy": draw(st.integers(0, 3)) == 0}      # instances that are falsy (container-like classes)
+          "falsy": draw(st.integers(0, 3)) == 0,
+          # classes that answer unknown attribute names by asking a prototype instance (__getattr__)
+          "delegating": draw(st.integers(0, 3)) == 0}      # instances that are falsy (container-like classes)
 
 
 class C29(Prop):
@@ -57,7 +59,7 @@ class C29(Prop):
           "of another instance (a.x += b.x) or by a call that assigns another instance's attribute on its way (a.x += f()), read it, define a subclass late (inheriting or re-listing the names) and "
           "create its first instance, discard an instance "
           "(dropped and garbage collected, then a new one is created - possibly at the same address); "
-          "in a quarter of the cases the classes make their instances falsy (__len__ / __bool__). Oracle: a dict "
+          "in a quarter of the cases the classes make their instances falsy (__len__ / __bool__), in a quarter they answer unknown attribute names by asking their first instance (__getattr__). Oracle: a dict "
           "keyed by (instance, attribute) that defaults to 0: every read returns the model value of "
           "THAT instance, and after every assignment every attribute of every live instance is read "
           "back and compared. Non-trivial: an assignment to one instance is made while another live "
@@ -134,6 +136,15 @@ class C29(Prop):
     if case.get("falsy") and case["base"] != "ActiveObjectWithAttributes":
       body0["__len__"] = lambda self: 0
       body1["__bool__"] = lambda self: False
+    proto = []
+    if case.get("delegating") and case["base"] != "ActiveObjectWithAttributes":
+      def ask_the_prototype(self, name):
+        # the usual prototype / wrapper idiom: what this object does not have, the first instance answers
+        if proto and proto[0] is not self and proto[0] is not None and not name.startswith("__"):
+          return getattr(proto[0], name)
+        raise AttributeError(name)
+      body0["__getattr__"] = ask_the_prototype
+      body1["__getattr__"] = ask_the_prototype
     k0 = type("VfHolder0", bases[0], body0)
     k1 = type("VfHolder1", bases[1], body1) if case["base"] == "two_classes" else k0
     klasses = [k0, k1]
@@ -146,6 +157,8 @@ class C29(Prop):
         if op[0] == "new":
           fresh = klasses[op[1]]()
           insts.append(fresh)
+          if not proto:
+            proto.append(fresh)
           # a brand-new instance reads 0 for every attribute (freshly allocated objects often
           # reuse the address of a discarded one)
           for nm in names:
